@@ -110,6 +110,7 @@ func classifyMapRange(c *load.Ctx, s *moSite) (verdict, detail, shape string) {
 	keyObj, valObj := rangeVar(info, s.rs.Key), rangeVar(info, s.rs.Value)
 	var problems []string
 	var exits, writes []string
+	constReturns := map[string]bool{}
 	collected := map[*types.Var]bool{} // slices that receive append(..., key/value)
 	// variables declared inside the loop body are per-iteration
 	local := map[types.Object]bool{}
@@ -131,6 +132,29 @@ func classifyMapRange(c *load.Ctx, s *moSite) (verdict, detail, shape string) {
 		case *ast.FuncLit:
 			return false
 		case *ast.ReturnStmt:
+			// an existence test — every return inside the loop hands back the same constants — does not
+			// depend on which matching entry is met first
+			allConst := true
+			for _, res := range x.Results {
+				switch y := ast.Unparen(res).(type) {
+				case *ast.BasicLit:
+				case *ast.Ident:
+					if y.Name != "true" && y.Name != "false" && y.Name != "nil" {
+						allConst = false
+					}
+				default:
+					allConst = false
+				}
+			}
+			if allConst {
+				var parts []string
+				for _, res := range x.Results {
+					parts = append(parts, types.ExprString(res))
+				}
+				constReturns[strings.Join(parts, ",")] = true
+				exits = append(exits, "return-const")
+				return true
+			}
 			exits = append(exits, "return")
 			problems = append(problems, "returns from inside the loop: which entry is reached first depends on the iteration order")
 		case *ast.BranchStmt:
@@ -227,6 +251,9 @@ func classifyMapRange(c *load.Ctx, s *moSite) (verdict, detail, shape string) {
 		}
 	}
 	shape = "exits=" + strings.Join(uniqSorted(exits), ",") + ";writes=" + strings.Join(uniqSorted(writes), ",")
+	if len(constReturns) > 1 {
+		problems = append(problems, "returns different constants from inside the loop: which one depends on the entry met first")
+	}
 	if len(problems) == 0 {
 		what := "body only inserts/deletes entries keyed by the iteration key or counts"
 		if len(collected) > 0 {
